@@ -655,6 +655,12 @@ class Piece:
                 if toks[k].text == "Duration" and toks[k + 1].text == ":" and toks[k + 2].text == ":" and toks[k + 3].text in ("ZERO", "MAX") \
                         and toks[k - 1].text != ":":
                     self._add(toks[k].start, toks[k + 3].end, "crate::duration_zero()" if toks[k + 3].text == "ZERO" else "crate::duration_max()", "T-CONST-STD", order=-99)
+        # T-STR: `PathBuf::from(X)` goes through the path model's conversion (prelude fs), whatever text-like type X has
+        if "fs" in self.unit.preludes:
+            for k in range(kb, k1 - 4):
+                if toks[k].text == "PathBuf" and toks[k + 1].text == ":" and toks[k + 2].text == ":" and toks[k + 3].text == "from" and toks[k + 4].text == "(" \
+                        and toks[k - 1].text != ":":
+                    self._add(toks[k].start, toks[k + 3].end, "crate::vpath::to_path", "T-STR", order=-99)
         # T-STATIC: a function-local `static NAME: TYPE = INIT;` keeps its content from one call to the next: within one call it is a
         # local whose content at entry is unknown (OnceLock is modelled in prelude stdx)
         if "stdx" in self.unit.preludes:
